@@ -8,7 +8,7 @@ from props.parsing import docs
 EXPECT = {}
 
 def gen_total(tier, rng):
-    n = 4000 if tier == "quick" else 100000
+    n = 4000 if tier == "quick" else 400000
     out = []
     for d in docs(rng, n, max_records=6, max_entries=8):
         if not d.records:
@@ -48,7 +48,7 @@ def gen_total(tier, rng):
         EXPECT[req] = "err uncloseable" if status == "err" else "ok %d %d %d %d" % (total, should, total - should, len(d.records))
         out.append(req)
     # several open ranges closed by one --now: yesterday's and today's records in either order, duplicate dates
-    for _ in range(1500 if tier == "quick" else 20000):
+    for _ in range(1500 if tier == "quick" else 100000):
         base = datetime.date(rng.choice([2020, 2021, 2024]), rng.randint(1, 12), rng.randint(1, 28))
         h, mi = rng.randrange(24), rng.randrange(60)
         now_off = h * 60 + mi
